@@ -311,6 +311,17 @@ def ex_traffic(rng):
 
 def ex_reach(rng):
     from abmarl.examples.sim.reach_the_target import ReachTheTargetSim, RunningAgent, TargetAgent, BarrierAgent
+    if rng.random() < 0.5:
+        # the same simulation on a small grid with everybody placed at random: runners may start
+        # next to or ON the target's cell (the overlap table of the example allows it)
+        gs = rng.choice([2, 3, 3, 4])
+        agents = {**{f'barrier{i}': BarrierAgent(id=f'barrier{i}') for i in range(rng.choice([0, 1, 2]))},
+                  **{f'runner{i}': RunningAgent(id=f'runner{i}', move_range=rng.choice([1, 2]), view_range=gs,
+                                                initial_health=1) for i in range(rng.randint(1, 4))},
+                  'target': TargetAgent(view_range=gs, attack_range=rng.choice([0, 1, 2]), attack_strength=1,
+                                        attack_accuracy=1, simultaneous_attacks=rng.choice([1, 2]))}
+        return ReachTheTargetSim.build_sim(gs, gs, agents=agents, overlapping={2: {3}, 3: {1, 2, 3}},
+                                           attack_mapping={2: {3}})
     gs = 7
     corners = [np.array([0, 0], dtype=int), np.array([gs - 1, 0], dtype=int),
                np.array([0, gs - 1], dtype=int), np.array([gs - 1, gs - 1], dtype=int)]
